@@ -15,8 +15,11 @@
     Every slot lookup is literally: sorted key list + GoSort.search + (optional) equality.
 
     Exchange format (harness/c12.go emits the same):
-      case   = (mode state (op ...))
-      mode   = 0 prune.Prune on a recording store | 1 `wrgl prune` | 2 `wrgl gc` (1,2: no delete trace)
+      case   = (mode state (op ...) [env])
+      mode   = 0 prune.Prune on a recording map-backed store | 1 `wrgl prune` | 2 `wrgl gc` (1,2: no delete trace)
+             | 3 prune.Prune on a recording store over the real badger store of a repo dir
+      env    = (tz ((txgroup age) ...))   tz: process time zone of the run (ignored here: the result must not
+               depend on it); age (minutes) of the transaction row of group [num/4] of the txs/ refs, default 0
       state  = (commits tables tblidx prof blocks blkidx refs)
       commits= ((id tableid (parent ...)) ...)      tables = ((id (blk ...) (blkidx ...) . _) ...)
       tblidx, prof, blocks, blkidx = (id ...)       refs = ((kind num commit) ...)   (names are opaque here; the harness
@@ -24,9 +27,12 @@
       op     = (0)            prune
              | (1 kind num)   delete ref           | (2 kind num commit) set ref
              | (3 k)          prune on a store whose (k+1)-th Delete fails (crash/IO error after k deletes)
+             | (4 ttl)        gc as cmd/wrgl gc_cmd.go runs it: transaction.GarbageCollect with TTL [ttl] minutes
+                              (drops every txs/ ref of a transaction row at least that old), then prune;
+                              obs as for prune plus a 4th element: the ref names (kind*2^32+num) left, ascending
       obs    = (r ...) one per op;  r = () for ref ops;
                prune: (status trace keysets),  status 0 ok | 1 error | 2 panic | 3 fuel
-                 trace   = ((kind ...) (T ids) (TI ids) (P ids) (B ids) (BI ids) (C ids))   mode 0, else ()
+                 trace   = ((kind ...) (T ids) (TI ids) (P ids) (B ids) (BI ids) (C ids))   modes 0 and 3, else ()
                            kind order exact (0 table 1 tblidx 2 prof 3 block 4 blkidx 5 commit),
                            ids of each kind sorted ascending (the order inside a kind is not compared:
                            hash order resp. children-first order of the real sums)
@@ -337,6 +343,24 @@ Definition t_keysets (s : state) : tree :=
   Node [ t_ids (commit_keys s); t_ids (table_keys s); t_ids (sortu (tblidx s)); t_ids (sortu (prof s));
          t_ids (block_keys s); t_ids (blkidx_keys s) ].
 
+Definition set_refs (s : state) (r : list (N * N)) : state :=
+  mkState (commits s) (tables s) (tblidx s) (prof s) (blocks s) (blkidx s) r.
+
+(** the first half of `wrgl gc` (transaction.GarbageCollect): the refs of expired transactions go *)
+Definition gc_refs (expired : N -> bool) (s : state) : state :=
+  set_refs s (filter (fun r => negb (expired (fst r))) (refs s)).
+(** gc = GarbageCollect, then Prune *)
+Definition gc_with pos (expired : N -> bool) (s : state) : list del * status :=
+  prune_with pos (gc_refs expired s).
+Definition gced_with pos (expired : N -> bool) (s : state) : state :=
+  pruned_with pos (gc_refs expired s).
+
+(* the harness's naming: kind 3 = txs/, transaction group num/4, groups with (g mod 3) = 2 have no row *)
+Definition tx_expired (ages : list (N * N)) (ttl : N) (name : N) : bool :=
+  let kind := name / 4294967296 in
+  let g := (name mod 4294967296) / 4 in
+  (kind =? 3) && negb ((g mod 3) =? 2) && (ttl <=? match get ages g with Some a => a | None => 0 end).
+
 (* one prune; [limit] = Some k: the (k+1)-th Delete fails *)
 Definition run_prune (mode : N) (limit : option nat) (s : state) : state * tree :=
   let '(ds, st) := prune s in
@@ -346,12 +370,9 @@ Definition run_prune (mode : N) (limit : option nat) (s : state) : state * tree 
     | None => (ds, st)
     end in
   let s' := apply_dels ds' s in
-  (s', Node [Leaf (status_num st'); (if mode =? 0 then t_trace ds' else Node []); t_keysets s']).
+  (s', Node [Leaf (status_num st'); (if (mode =? 0) || (mode =? 3) then t_trace ds' else Node []); t_keysets s']).
 
-Definition set_refs (s : state) (r : list (N * N)) : state :=
-  mkState (commits s) (tables s) (tblidx s) (prof s) (blocks s) (blkidx s) r.
-
-Definition run_op (mode : N) (s : state) (op : tree) : state * tree :=
+Definition run_op (mode : N) (ages : list (N * N)) (s : state) (op : tree) : state * tree :=
   let tag := d_N (d_nth 0 op) in
   if tag =? 0 then run_prune mode None s
   else if tag =? 1 then
@@ -360,14 +381,21 @@ Definition run_op (mode : N) (s : state) (op : tree) : state * tree :=
     let nm := ref_name (d_N (d_nth 1 op)) (d_N (d_nth 2 op)) in
     (set_refs s ((nm, d_N (d_nth 3 op)) :: rem nm (refs s)), Node [])
   else if tag =? 3 then run_prune mode (Some (d_nat (d_nth 1 op))) s
+  else if tag =? 4 then
+    let '(s', r) := run_prune mode None (gc_refs (tx_expired ages (d_N (d_nth 1 op))) s) in
+    (s', match r with
+         | Node l => Node (l ++ [t_ids (sortu (map fst (refs s')))])
+         | Leaf _ => r
+         end)
   else (s, Node []).
 
-Fixpoint run_ops (mode : N) (s : state) (ops : list tree) : list tree :=
+Fixpoint run_ops (mode : N) (ages : list (N * N)) (s : state) (ops : list tree) : list tree :=
   match ops with
   | [] => []
-  | op :: ops' => let '(s', r) := run_op mode s op in r :: run_ops mode s' ops'
+  | op :: ops' => let '(s', r) := run_op mode ages s op in r :: run_ops mode ages s' ops'
   end.
 
 Definition run_C12 (c : tree) : tree :=
   let mode := d_N (d_nth 0 c) in
-  Node (run_ops mode (d_state (d_nth 1 c)) (d_list (fun x => x) (d_nth 2 c))).
+  let ages := d_list (fun t => (d_N (d_nth 0 t), d_N (d_nth 1 t))) (d_nth 1 (d_nth 3 c)) in
+  Node (run_ops mode ages (d_state (d_nth 1 c)) (d_list (fun x => x) (d_nth 2 c))).
